@@ -31,17 +31,17 @@ def attrPath (p : Path) : Path := p.map fieldAttr
 /-- `convert_uri_fieldnames` on one variable: `".".join(_fix_name_segment(s) for s in path.split("."))` -/
 def uriVar (p : Path) : Path := p.map fieldAttr
 
-/-- `FieldHeader.disambiguated`: `raw + "_" if raw in RESERVED_NAMES else raw` on the WHOLE dotted string.
-No reserved word contains a dot (`reserved_no_dot`), so only single-segment paths are ever suffixed. -/
-def headerAttr : Path → Path
-  | [w] => [fieldAttr w]
-  | p => p
+/-- `FieldHeader.disambiguated` (since the C12 `fix:` commit a11332b): every segment of the dotted
+path is suffixed when reserved. (Before: only the whole dotted string was tested.) -/
+def headerAttr (p : Path) : Path := p.map fieldAttr
 
-/-- the key of `Method._fields_mapping`: the signature entry, plus `_` iff the TERMINAL field's name is reserved -/
-def flattenKey (p : Path) : Path :=
-  match p.getLast? with
-  | some l => p.dropLast ++ [fieldAttr l]
-  | none => p
+/-- the key of `Method._fields_mapping` (since the `fix:` commit a0434d5): every segment suffixed when
+reserved. (Before: only the terminal segment.) -/
+def flattenKey (p : Path) : Path := p.map fieldAttr
+
+/-- `RoutingParameter.disambiguated_field` (added by the `fix:` commit 52dedca): the attribute path
+read by `create_metadata` for an explicit routing parameter -/
+def routingFieldAttr (p : Path) : Path := p.map fieldAttr
 
 /-- `field.name`, the keyword parameter offered for a flattened field -/
 def flattenParam (p : Path) : Option String := p.getLast?.map fieldAttr
